@@ -146,7 +146,7 @@ def plan(ch, tier):
     active = []
     first_be = ch.pick("be0", ["direct", "software", "batch", "hwfade", "software", "batch"])
     active.append(ch.pick("l0", BY_BACKEND[first_be]))
-    for _ in range(ch.choice("nactive", 4)):
+    for _ in range(ch.weighted("nactive", [(0, 3), (1, 3), (2, 2), (3, 1)])):
         n = ch.pick("lN", LIGHT_NAMES)
         if n not in active:
             active.append(n)
@@ -188,6 +188,38 @@ def plan(ch, tier):
     if ch.flag("m2_on", 0.4):
         pre.append({"op": "mode", "mode": "m2", "action": "start", "when": ["rel", 0.0]})
     return {"knobs": knobs, "cfg": cfg, "active": active, "lp": lp, "ops": pre + ops}
+
+
+def shrink(plan):
+    """Simpler plans: boring configuration first, then simpler operation timing / arguments."""
+    import copy
+
+    def variant(fn):
+        p = copy.deepcopy(plan)
+        fn(p)
+        return p
+    cfg = plan["cfg"]
+    boring = [("brightness", 1.0), ("default_profile", False), ("default_fade_ms", 0), ("hz", 50), ("rgbw", "duck_rgb"),
+              ("profile", 0), ("hwfade_max_ms", 100)]
+    for k, v in boring:
+        if cfg[k] != v:
+            yield variant(lambda p, k=k, v=v: p["cfg"].__setitem__(k, v))
+    for k, v in (("cb_yield", None), ("max_batch_size", 64), ("max_fade_ms", 0)):
+        if cfg["batch"][k] != v:
+            yield variant(lambda p, k=k, v=v: p["cfg"]["batch"].__setitem__(k, v))
+    kn = plan["knobs"]
+    if kn.get("p_stall") or kn.get("shuffle_ties"):
+        yield variant(lambda p: p["knobs"].update(p_stall=0.0, shuffle_ties=False))
+    for c in sorted(plan["lp"]):
+        if plan["lp"][c] and not any(op.get("event") in plan["lp"][c] for op in plan["ops"]):
+            yield variant(lambda p, c=c: p["lp"].__setitem__(c, {}))
+    for i, op in enumerate(plan["ops"]):
+        if op["when"] != ["rel", 0.01] and op["when"][0] != "rel":
+            yield variant(lambda p, i=i: p["ops"][i].__setitem__("when", ["rel", 0.01]))
+        if "live_key" in op:
+            yield variant(lambda p, i=i: p["ops"][i].pop("live_key"))
+        if op.get("form"):
+            yield variant(lambda p, i=i: p["ops"][i].__setitem__("form", 0))
 
 
 def warm():
@@ -299,8 +331,8 @@ def execute(ctx, plan):    # noqa: C901  pylint: disable=too-many-statements,too
         for (s, e) in mdl.running(now):
             if s < now < e:
                 ctx.probe("cmd_inside_fade")
-            if abs(e - now) <= 1e-9:
-                ctx.probe("cmd_at_fade_end")
+        if any(e.dest_time and abs(e.dest_time - now) <= 1e-9 for e in mdl.entries):
+            ctx.probe("cmd_at_fade_end")
         if instant and top_running(name, now):
             be = LIGHTS[name]["be"]
             if be == "software":
@@ -415,15 +447,16 @@ def execute(ctx, plan):    # noqa: C901  pylint: disable=too-many-statements,too
 
     def hw_settled(name, now):
         """Mid-run: has this light been quiet long enough that its hardware must show the final colour?
-        direct/hwfade channels are commanded synchronously; software-fade and batched channels get one tick more.
-        Not judged at an instant the loop reached through a stall (ticks that became due meanwhile are still
-        being processed at that very instant)."""
+        direct channels are commanded synchronously; hwfade / software-fade / batched channels need their last
+        tick, which is only guaranteed when the loop has run without a stall for that long (a stall delays MPF's
+        tick timers as well, and everything that became due meanwhile is still being processed at the landing
+        instant)."""
         be = LIGHTS[name]["be"]
         quiet_since = max(models[name].last_fade_end(0.0), last_change.get(name, 0.0))
         if be == "direct":
             return quiet_since <= now
-        if loop.stall_log and abs(loop.stall_log[-1][1] - now) <= 1e-9:
-            return False
+        if loop.stall_log:
+            quiet_since = max(quiet_since, loop.stall_log[-1][1])
         if be == "hwfade":
             return quiet_since + cfg["hwfade_max_ms"] / 1000.0 + 0.002 < now
         if be == "software":
@@ -549,10 +582,12 @@ def execute(ctx, plan):    # noqa: C901  pylint: disable=too-many-statements,too
         if kind == "color":
             col = op["color"]
             arg = [list(col), _hex(col), RGBColor(col)][op["form"]]
+            # key=None is the documented default and means the same entry as key ""
+            kw_key = None if (op["key"] == "" and op["form"] == 1) else op["key"]
             r = apply_color(name, col, op["fade"], op["prio"], op["key"], now)
             direct[0] = True
             try:
-                dev.color(arg, fade_ms=op["fade"], priority=op["prio"], key=op["key"])
+                dev.color(arg, fade_ms=op["fade"], priority=op["prio"], key=kw_key)
             finally:
                 direct[0] = False
         elif kind == "on":
